@@ -576,7 +576,8 @@ func checkResumeGate(r *Run, p *packages.Package, cg *CallGraph, decls map[strin
 		}},
 		{"removeKnownDumpCheckpointTemps", func(g gate) bool {
 			fn := calleeOf(info, g.Call)
-			return fn != nil && takesCheckpoint(fn) && reachesStd(fn, func(full string) bool { return full == "os.Remove" || full == "os.RemoveAll" }) &&
+			// (handed the checkpoint, or the list of paths computed from it)
+			return fn != nil && reachesStd(fn, func(full string) bool { return full == "os.Remove" || full == "os.RemoveAll" }) &&
 				!reachesStd(fn, func(full string) bool { return full == "os.Open" || full == "os.ReadFile" })
 		}},
 		{"validateDumpCheckpointFiles", func(g gate) bool {
